@@ -759,6 +759,32 @@ def inline_new_helpers(F):
         F.inlined[p] = True
 
 
+def flatten(F, fn, pred, max_depth=3):
+    """fn with the bodies of the callees selected by pred(terminator) spliced in (recursively, max_depth levels): one
+    control-flow graph for a phase-ordering argument that spans a function and the helpers it dispatches to"""
+    blocks = [{"s": list(b["s"]), "t": b["t"]} for b in fn.blocks]
+    locals_ = list(fn.locals)
+    dbg = dict(fn.dbg)
+    depth = {i: 0 for i in range(len(blocks))}
+    bi = 0
+    changed = False
+    while bi < len(blocks) and len(blocks) < 8000:
+        t = blocks[bi]["t"]
+        if t["k"] == "call" and not t.get("dyn") and depth.get(bi, 0) < max_depth and pred(t):
+            g = F.fn(t["f"])
+            if g is not None and g.path != fn.path and len(t["args"]) == g.argc:
+                rng = _splice(blocks, locals_, dbg, bi, g, t["args"], fn.argc)
+                for r_ in rng:
+                    depth[r_] = depth.get(bi, 0) + 1
+                changed = True
+        bi += 1
+    if not changed:
+        return fn
+    d = dict(fn.d)
+    d["blocks"], d["locals"], d["dbg"] = blocks, locals_, {str(k): v for k, v in dbg.items()}
+    return Fn(d, fn.crate)
+
+
 def _resolve_fnptr_calls(F, fn):
     """inside spliced regions, a call through a `fn` pointer whose value is a non-capturing closure
     built in the caller (`helper(|a, b| a / b)`) is replaced by that closure's body"""
